@@ -137,6 +137,11 @@ func refBinary(op int, l, r STerm) evalObs {
 					return b(false)
 				}
 			}
+			for _, x := range r.Set {
+				if !inSet(l.Set, x) {
+					return b(false)
+				}
+			}
 			return b(true)
 		}
 		return b(atomEq(l.A, r.A))
@@ -218,16 +223,16 @@ func refBinary(op int, l, r STerm) evalObs {
 			return ill
 		}
 		res := STerm{IsSet: true}
+		// the results are sets: each element once (operand literals may repeat an element)
 		if op == 15 {
 			for _, x := range l.Set {
-				if inSet(r.Set, x) {
+				if inSet(r.Set, x) && !inSet(res.Set, x) {
 					res.Set = append(res.Set, x)
 				}
 			}
 		} else {
-			res.Set = append(res.Set, l.Set...)
-			for _, x := range r.Set {
-				if !inSet(l.Set, x) {
+			for _, x := range append(append([]SAtom{}, l.Set...), r.Set...) {
+				if !inSet(res.Set, x) {
 					res.Set = append(res.Set, x)
 				}
 			}
@@ -313,7 +318,7 @@ func c06Panel(tier string) []STerm {
 		aDate(0), aDate(1), aDate(1700000000), aDate(math.MaxUint64),
 		aBytes(nil), aBytes([]byte{1}), aBytes([]byte{1, 2}),
 		aBool(true), aBool(false),
-		aSet(aInt(1), aInt(2)), aSet(aInt(2)), aSet(aInt(1), aInt(1)), aSet(aInt(3)),
+		aSet(aInt(1), aInt(2)), aSet(aInt(2)), aSet(aInt(1), aInt(1)), aSet(aInt(3)), aSet(aInt(1), aInt(1), aInt(2)), aSet(aInt(1), aInt(2), aInt(2)), aSet(aInt(2), aInt(1)),
 		aSet(aStr("abc"), aStr("x")), aSet(aStr("x")),
 		aSet(aBytes([]byte{1})), aSet(aBytes([]byte{1}), aBytes(nil)),
 		aSet(aBool(true)), aSet(aDate(1)), aSet(),
